@@ -9,7 +9,9 @@ def harnesses(tier):
     if tier == 'quick':
         return [
             {'name': 'attach-N3-W2', 'fn': graph.h_step,
-             'cfg': {'prop': 'C05', 'N': 3, 'nW': 2, 'seqlen': 2, 'ops': graph.ATTACH_OPS}},
+             'cfg': {'prop': 'C05', 'N': 3, 'nW': 2, 'seqlen': 2, 'ops': graph.ATTACH_OPS + ['ch_reorder', 'ch_sort']}},
+            {'name': 'reparent-N4-detached', 'fn': graph.h_step,
+             'cfg': {'prop': 'C05', 'N': 4, 'nW': 0, 'seqlen': 1, 'links': False, 'ops': ['set_parent', 'ch_append', 'ch_insert']}},
             {'name': 'lookup-N4', 'fn': graph.h_lookup, 'cfg': {'N': 4, 'nW': 1}},
         ]
     return [
